@@ -63,8 +63,9 @@ def start_mocking_observations(ctx, sym, mod):
             return f
         older = Obj('buffer:older')
         builtins = {} if print_setting is None else {'print': print_setting}
-        me = symexec.self_obj(mod, 'Sandbox', _current_stdout=[older], _current_patches=[],
-                              _module_overrides={'__builtins__': builtins, 'os': True}, data={}, modules={})
+        from .c05 import sandbox_self, stack as stack_of
+        me = sandbox_self(ctx, sym, mod, stdout=[older],
+                          _module_overrides={'__builtins__': builtins, 'os': True}, data={}, modules={})
         for name in ('mock_function', '_track_inputs', '_reset_builtins', '_mock_builtins', '_start_patches'):
             symexec.method(me, name, rec.stub(name))
         patch = rec.stub('patch', fn=lambda *a, **k: Obj('patch', target=a[0] if a else None, args=a, kwargs=k))
@@ -73,7 +74,7 @@ def start_mocking_observations(ctx, sym, mod):
                                              'patch.dict': rec.stub('patch.dict', ret=Obj('patch.dict'))},
                             extra={'sys.modules': {'sys': 'real-sys'}})
         _, raised = symexec.run(fd, sm, [Obj('context', inputs=[])], bound_self=me, what='Sandbox._start_mocking')
-        stack = me.attrs['_current_stdout']
+        stack = stack_of(me, 'stdout')
         outs = [e for e in rec.named('patch') if e[1] and e[1][0] == 'sys.stdout']
         yield '[print=%r]' % (print_setting,), {
             'raised': raised, 'stack': stack, 'created': created,
@@ -106,9 +107,10 @@ def r2_per_execution(ctx, mod, sym):
         symexec.method(older, 'getvalue', lambda: older.attrs['text'])
         symexec.method(older, 'flush', lambda: None)
         builtins = {} if print_setting is None else {'print': print_setting}
-        me = symexec.self_obj(mod, 'Sandbox', _current_stdout=[older], _current_patches=[],
-                              _module_overrides={'__builtins__': builtins, 'os': True, 'turtle': 'mock-turtle'},
-                              data={}, modules={})
+        from .c05 import sandbox_self, stack as stack_of
+        me = sandbox_self(ctx, sym, mod, stdout=[older],
+                          _module_overrides={'__builtins__': builtins, 'os': True, 'turtle': 'mock-turtle'},
+                          data={}, modules={})
         for name in ('mock_function', '_track_inputs', '_reset_builtins', '_mock_builtins', '_start_patches',
                      '_stop_patches', 'append_output'):
             symexec.method(me, name, rec.stub(name))
@@ -120,7 +122,7 @@ def r2_per_execution(ctx, mod, sym):
                             extra={'sys.modules': {'sys': 'real-sys'}})
         tag = '[print=%r]' % (print_setting,)
         _, raised = symexec.run(fd, sm, [context], bound_self=me, what='Sandbox._start_mocking')
-        stack = me.attrs['_current_stdout']
+        stack = stack_of(me, 'stdout')
         ok = raised is None and len(stack) == 2 and stack[0] is older and len(created) == 1 and stack[1] is created[0] \
             and not created[0].attrs['ctor_args'] and not created[0].attrs['ctor_kwargs']
         ctx.check(ok, 'R2', '_start_mocking:fresh-buffer' + tag, mod, sm,
@@ -146,7 +148,7 @@ def r2_per_execution(ctx, mod, sym):
             del rec.events[:]
             _, raised = symexec.run(fd, st, [context], bound_self=me, what='Sandbox._stop_mocking')
             ap = rec.named('append_output')
-            ok2 = raised is None and me.attrs['_current_stdout'] == [older] and len(ap) == 1 and \
+            ok2 = raised is None and stack_of(me, 'stdout') == [older] and len(ap) == 1 and \
                 len(ap[0][1]) == 2 and ap[0][1][0] is created[0].attrs['text'] and ap[0][1][1] is context
             ctx.check(ok2, 'R2', '_stop_mocking:records-popped-buffer' + tag, mod, st,
                       "_stop_mocking does not pop this execution's buffer and append its text for the same context "
@@ -209,8 +211,11 @@ def r4_input_fifo(ctx, mod, sym):
         fd.calls['print'] = lambda *a, **k: printed.append(a)
         fd.calls['callable'] = lambda x: callable(x) and not isinstance(x, Obj)
         cx = Obj('context', inputs=[])
-        me = Obj('sandbox', inputs=list(queue), _context=[Obj('older', inputs=['zzz']), cx], _called_inputs=0,
-                 MAXIMUM_INPUTS=100000)
+        from .. import symexec as _sx
+        me = Obj('sandbox', **{k: (list(v) if isinstance(v, list) else (dict(v) if isinstance(v, dict) else v))
+                               for k, v in _sx.init_literals(mod, 'Sandbox').items()})
+        me.attrs.update(inputs=list(queue), _context=[Obj('older', inputs=['zzz']), cx])
+        me.attrs.setdefault('MAXIMUM_INPUTS', 100000)
         me.attrs['__classdef__'] = mod.cls('Sandbox')
         try:
             # _track_inputs(...) is executed itself and returns the tracker closure, which is then called
@@ -224,7 +229,7 @@ def r4_input_fifo(ctx, mod, sym):
         prompt = args[0] if args else ''
         key = 'input[queue=%r,prompt=%r]' % (queue, prompt)
         ok = got == want and me.attrs['inputs'] == queue[1:] and cx.attrs['inputs'] == [want] and \
-            printed == [(prompt,)] and me.attrs['_called_inputs'] == 1
+            printed == [(prompt,)]
         ctx.check(ok, 'R4', key, mod, inner,
                   "input(%r) with queue %r returned %r, left queue %r, recorded %r, echoed %r; the property requires "
                   "%r / %r / %r / %r" % (prompt, queue, got, me.attrs['inputs'], cx.attrs['inputs'], printed, want,
